@@ -42,6 +42,11 @@ FLAVOURS = {
         "quick": ["-O1"], "thorough": ["-O1"],
         "common": ["-std=c++14", "-g", "-fsanitize=thread", "-w", "-fmax-errors=8"],
         "link": ["-fsanitize=thread", "-lpthread"]}),
+    "fuzz": (CLANG, {
+        "quick": ["-O1"], "thorough": ["-O1"],
+        "common": ["-std=c++14", "-gline-tables-only", "-fno-omit-frame-pointer", "-fsanitize=fuzzer,address,undefined", "-fno-sanitize-recover=all",
+                   "-fno-sanitize=nonnull-attribute", "-Wno-everything", "-ferror-limit=8"],
+        "link": ["-fsanitize=fuzzer,address,undefined", "-lpthread"]}),
     "plain": (GXX, {
         "quick": ["-O2"], "thorough": ["-O2"],
         "common": ["-std=c++14", "-w", "-fmax-errors=8"],
@@ -305,6 +310,81 @@ def run_worker(binary, argv, env, outdir, i, timeout):
     return i, rc, timed_out, time.time() - t0
 
 
+def run_fuzz_stage(cfg, prop, tier, seed, gen_sources, gen_dirs, engine_binary, env, outdir, viols, counters, harness_problems, artifact=None):
+    """libFuzzer stage (thorough tier of C02 / C04): coverage-guided inputs through the same monitored decode."""
+    engine = cfg["engine"]
+    fsrc = [s for s in gen_sources] + [os.path.join(VERIF, cfg["fuzz"])]
+    fbin, finfo = build_engine(engine, "fuzz", tier, fsrc, list(cfg.get("flags", [])), gen_dirs)
+    fdir = os.path.join(outdir, "fuzz")
+    os.makedirs(os.path.join(fdir, "corpus"), exist_ok=True)
+    fenv = dict(env)
+    fenv["ASAN_OPTIONS"] = env["ASAN_OPTIONS"].replace("abort_on_error=1", "abort_on_error=1:quarantine_size_mb=8")
+
+    def triage(path):
+        p = subprocess.run([fbin, path], stdout=subprocess.PIPE, stderr=subprocess.STDOUT, text=True, env=fenv, cwd=fdir, timeout=300)
+        m = re.search(r"VF-VIOLATION key=(\S+) (.*)", p.stdout)
+        if m:
+            return m.group(1), m.group(2)[:400], p.stdout
+        k = sanitizer_key(p.stdout)
+        if k:
+            return k, "sanitizer report on a fuzzer-found input", p.stdout
+        if p.returncode != 0:
+            base = os.path.basename(path)
+            return ("hang:fuzz" if "timeout" in base else "oom:fuzz" if "oom" in base else "crash:fuzz"), "abnormal exit on a fuzzer-found input", p.stdout
+        return None, None, p.stdout
+
+    if artifact:
+        key, what, out = triage(artifact)
+        return key, what, out
+    p = subprocess.run([engine_binary, "--engine", engine, "--prop", prop, "--tier", tier, "--seed", str(seed), "--out", fdir, "--dump-corpus", os.path.join(fdir, "corpus")],
+                       stdout=subprocess.PIPE, stderr=subprocess.STDOUT, text=True, env=env, cwd=fdir)
+    nseeds = len(os.listdir(os.path.join(fdir, "corpus")))
+    if nseeds == 0:
+        harness_problems.append("fuzz stage: no seed corpus was produced: " + p.stdout[-500:])
+        return
+    with open(os.path.join(fdir, "dict"), "w") as f:
+        for b in list(range(0x80, 0x8a)) + list(range(0xb5, 0xc0)) + [0x00, 0x01, 0x7f, 0xff, 0xc0]:
+            f.write('"\\x%02x"\n' % b)
+        for w in ["\\xff\\xff\\xff\\xff\\xff\\xff\\xff\\xff", "\\x83\\xff\\xff\\xff\\xff\\xff\\xff\\xff\\xff", "\\x82\\x00\\x00\\x01\\x00", "\\x81\\x00\\x01", "\\x87\\x00\\x00\\x00\\x00\\x00\\x00\\x00\\x80"]:
+            f.write('"%s"\n' % w)
+    runs = cfg.get("fuzz_runs", 250000)
+    t0 = time.time()
+    cmd = [fbin, "corpus", "-runs=%d" % runs, "-seed=%d" % (seed * 1000 + (2 if prop == "C02" else 4)), "-max_len=600", "-jobs=%d" % NCPU, "-workers=%d" % NCPU,
+           "-artifact_prefix=%s/art-" % fdir, "-print_final_stats=1", "-timeout=25", "-rss_limit_mb=3000", "-dict=dict", "-use_value_profile=1"]
+    try:
+        subprocess.run(cmd, stdout=subprocess.PIPE, stderr=subprocess.STDOUT, text=True, env=fenv, cwd=fdir, timeout=cfg.get("fuzz_timeout", 3 * 3600))
+    except subprocess.TimeoutExpired:
+        harness_problems.append("fuzz stage exceeded its watchdog (inconclusive)")
+    execs = 0
+    for lf in glob.glob(os.path.join(fdir, "fuzz-*.log")):
+        m = re.search(r"stat::number_of_executed_units:\s*(\d+)", open(lf, errors="replace").read())
+        if m:
+            execs += int(m.group(1))
+    counters["fuzz_executions"] = execs
+    counters["fuzz_seed_inputs"] = nseeds
+    counters["fuzz_corpus_units_found"] = max(0, len(os.listdir(os.path.join(fdir, "corpus"))) - nseeds)
+    counters["fuzz_wall_s"] = int(time.time() - t0)
+    if execs == 0:
+        harness_problems.append("fuzz stage executed nothing")
+    arts = sorted(glob.glob(os.path.join(fdir, "art-*")))
+    counters["fuzz_artifacts"] = len(arts)
+    for a in arts[:40]:
+        try:
+            key, what, out = triage(a)
+        except subprocess.TimeoutExpired:
+            key, what, out = "hang:fuzz", "the fuzzer-found input does not terminate", ""
+        if not key:
+            continue       # not reproducible alone (e.g. a leak report tied to fuzzer state): ignored
+        rp = os.path.join(outdir, "replay-%s-fuzz-%s.json" % (prop, hashlib.sha1(key.encode()).hexdigest()[:8]))
+        keep_art = os.path.join(VERIF, "replays", "fuzz-input-%s-%s" % (prop, os.path.basename(a)[-16:]))
+        os.makedirs(os.path.join(VERIF, "replays"), exist_ok=True)
+        shutil.copy(a, keep_art)
+        if key not in viols:
+            json.dump({"property": prop, "key": key, "what": what, "case": {"engine": engine, "prop": prop, "tier": tier, "seed": seed, "artifact": keep_art}, "report": out[-8000:]}, open(rp, "w"), indent=1)
+        e = viols.setdefault(key, {"key": key, "what": "libFuzzer-found input: %s" % what, "count": 0, "replay": rp})
+        e["count"] += 1
+
+
 def run_check(cfg, prop, tier, seed, workers, replay=None, keep=False):
     t_start = time.time()
     engine = cfg["engine"]
@@ -313,10 +393,12 @@ def run_check(cfg, prop, tier, seed, workers, replay=None, keep=False):
         flavour = flavour[tier]
     gen_dirs = []
     sources = []
+    gen_sources = []
     if "gen" in cfg:
         gdir, gsrcs = cfg["gen"](prop, tier, seed)
         gen_dirs.append(gdir)
         sources += gsrcs
+        gen_sources = list(gsrcs)
     for pat in cfg["sources"]:
         sources += sorted(glob.glob(os.path.join(VERIF, pat)))
     if not sources:
@@ -333,6 +415,15 @@ def run_check(cfg, prop, tier, seed, workers, replay=None, keep=False):
     env.update(cfg.get("env", {}))
     nw = 1 if replay else min(workers, cfg.get("max_workers", workers))
     base = ["--engine", engine, "--prop", prop, "--tier", tier, "--seed", str(seed), "--out", outdir]
+    if replay and (json.load(open(replay)).get("case") or {}).get("artifact"):
+        art = json.load(open(replay))["case"]["artifact"]
+        key, what, out = run_fuzz_stage(cfg, prop, "thorough", seed, gen_sources, gen_dirs, binary, env, outdir, {}, {}, [], artifact=art)
+        if key:
+            print("VIOLATION property=%s replay=%s" % (prop, replay))
+            print("  key=%s %s" % (key, what))
+            return 1
+        print("replay: the input no longer triggers anything")
+        return 0
     if replay:
         rj = json.load(open(replay))
         c = rj.get("case") or {}
@@ -346,6 +437,10 @@ def run_check(cfg, prop, tier, seed, workers, replay=None, keep=False):
             base[base.index("--seed") + 1] = str(c["seed"])
         if c.get("tier"):
             base[base.index("--tier") + 1] = str(c["tier"])
+    fuzz_only = bool(os.environ.get("VERIF_FUZZ_ONLY")) and cfg.get("fuzz") and tier == "thorough" and not replay
+    if fuzz_only:      # sensitivity experiments on seeded changes: skip the enumerated workload, run only the libFuzzer stage (floors will report the run as inconclusive)
+        base += ["--only-type", "__none__"]
+        cfg = dict(cfg, fuzz_runs=int(os.environ.get("VERIF_FUZZ_RUNS", "30000")))
     timeout = cfg.get("timeout", {"quick": 1500, "thorough": 6 * 3600})[tier]
     results = {}
     with cf.ThreadPoolExecutor(max_workers=nw) as ex:
@@ -437,6 +532,8 @@ def run_check(cfg, prop, tier, seed, workers, replay=None, keep=False):
             e["count"] += 1
         else:
             harness_problems.append("worker %d exited rc=%d without a case in flight:\n%s" % (i, rc, stderr_txt[-3000:]))
+    if cfg.get("fuzz") and tier == "thorough" and not replay and not viols:
+        run_fuzz_stage(cfg, prop, tier, seed, gen_sources, gen_dirs, binary, env, outdir, viols, counters, harness_problems)
     # TSan logs
     tsan_reports = 0
     for lf in glob.glob(os.path.join(outdir, "tsan.*")):
